@@ -37,7 +37,9 @@ CONFIGS = {
     "thorough": [
         dict(Depth="3", Depth2="1", Decorated="FALSE", WidthAt="<<2,2,1>>"),
         dict(Depth="2", Depth2="1", Decorated="TRUE", WidthAt="<<2,1>>"),
-        dict(Depth="2", Depth2="2", Decorated="FALSE", WidthAt="<<1,2>>", Ids='{"a","b","c","d"}'),
+        dict(Depth="2", Depth2="2", Decorated="FALSE", WidthAt="<<1,1>>", Ids='{"a","b","c","d"}'),
+        dict(Depth="3", Depth2="1", Decorated="FALSE", WidthAt="<<2,1,1>>", Ids='{"a","b","c","d"}'),
+        dict(Depth="3", Depth2="1", Decorated="TRUE", WidthAt="<<2,1,1>>"),
         dict(Depth="4", Depth2="1", Decorated="FALSE", WidthAt="<<2,1,1,1>>"),
     ],
 }
@@ -560,5 +562,8 @@ def run(ctx: Ctx):
         ctx.notes.append("MODEL-DRIFT: process_object event sequences differ from Impl (outcomes are judged against Req regardless)")
     ctx.cov.setdefault("traces_validated_against_impl", 0)
     ctx.cov["exhaustive"] = True
+    # growth of the specification: plate expansion (Plates.tla) - runs before the loader and produces the ids it sees
+    from . import plates
+    plates.check(ctx, ctx.tier == "quick")
     ctx.cov["rule"] = ("every document of the TLC-enumerated bound (ids a,b,c; nesting depth and widths per config) is loaded by the real loader; "
                        "non-trivial = ill-formed (duplicate/dangling/missing id/ancestor re-declaration) or containing at least one resolved reference")
